@@ -16,6 +16,16 @@ func init() {
 			a.c18SendDispatch("P.send-dispatch")
 			a.c18Resend()
 			a.endForgetsLastText("P.resend")
+			// the session ends when the user says so (or the peer disconnects): nothing inside the library calls End
+			if end := a.MustFn("(*Conversation).End"); end != nil {
+				n := 0
+				for _, cs := range a.CallSites(end) {
+					n++
+					a.R.Viol("W.end", "call|End|from|"+a.C.Name(a.C.owner(cs.Parent())), "End is called by the user only", a.C.InstrPos(cs), a.C.Name(cs.Parent())+" calls End: the conversation leaves the finished state (or an encrypted session) without the user's doing, and Send stops refusing text")
+				}
+				a.R.Check(n == 0, "W.end", "End|internal-callers", "no internal caller of End", a.C.Pos(end.Pos()), fmt.Sprintf("%d", n))
+			}
+			a.policiesImmutable("W.policies")
 			a.tlvLoopComplete("S.tlv-loop")
 		})
 }
